@@ -118,6 +118,11 @@ pub enum Mode {
     /// Stop the world before operation k; for a write optionally leave an empty file.
     CrashAt { k: usize, torn: bool },
     FailAt { k: usize, kind: ErrorKind },
+    /// Stop the world before the nth write operation (counting writes only), and optionally
+    /// sleep a random few microseconds before every operation (scheduling jitter).
+    CrashAtWrite { nth: usize },
+    /// No faults; random short sleeps / yields before operations.
+    Jitter,
     /// Every operation selected by `only` fails independently with probability p.
     FailRandom { p: f64 },
 }
@@ -131,11 +136,13 @@ struct St {
     rng: Rng,
     over_budget: bool,
     injected: usize,
+    writes_seen: usize,
 }
 
 pub struct Icept {
     pub root: PathBuf,
     budget: usize,
+    pub jitter: bool,
     st: Mutex<St>,
 }
 
@@ -144,6 +151,7 @@ impl Icept {
         Arc::new(Icept {
             root: root.to_path_buf(),
             budget: 2_000_000,
+            jitter: false,
             st: Mutex::new(St {
                 mode,
                 n: 0,
@@ -153,8 +161,15 @@ impl Icept {
                 rng: Rng::new(seed),
                 over_budget: false,
                 injected: 0,
+                writes_seen: 0,
             }),
         })
+    }
+
+    pub fn with_jitter(root: &Path, mode: Mode, seed: u64) -> Arc<Icept> {
+        let mut i = Icept::new(root, mode, seed);
+        Arc::get_mut(&mut i).unwrap().jitter = true;
+        i
     }
 
     pub fn with_budget(root: &Path, mode: Mode, seed: u64, budget: usize) -> Arc<Icept> {
@@ -193,9 +208,8 @@ impl Icept {
     }
 }
 
-#[async_trait]
-impl Interceptor for Icept {
-    async fn before(&self, op: &Op) -> Decision {
+impl Icept {
+    fn before_sync(&self, op: &Op) -> (Decision, Option<u64>) {
         let mut st = self.st.lock().unwrap();
         let verb = V::of(op.verb);
         if st.frozen {
@@ -205,7 +219,7 @@ impl Interceptor for Icept {
                 drop(st);
                 panic!("cv: storage operation budget exceeded");
             }
-            return Decision::Fail(ErrorKind::Other);
+            return (Decision::Fail(ErrorKind::Other), None);
         }
         let idx = st.n;
         st.n += 1;
@@ -243,6 +257,19 @@ impl Interceptor for Icept {
                     Decision::Proceed
                 }
             }
+            Mode::Jitter => Decision::Proceed,
+            Mode::CrashAtWrite { nth } => {
+                if verb == V::Write {
+                    st.writes_seen += 1;
+                }
+                if verb == V::Write && st.writes_seen == nth + 1 {
+                    st.frozen = true;
+                    st.frozen_at = Some(ev.clone());
+                    Decision::Fail(ErrorKind::Other)
+                } else {
+                    Decision::Proceed
+                }
+            }
             Mode::FailAt { k, kind } => {
                 if idx == k {
                     Decision::Fail(kind)
@@ -264,6 +291,24 @@ impl Interceptor for Icept {
             st.injected += 1;
         }
         st.log.push(ev);
+        let jitter = if self.jitter { Some(st.rng.below(4)) } else { None };
+        (decision, jitter)
+    }
+}
+
+#[async_trait]
+impl Interceptor for Icept {
+    async fn before(&self, op: &Op) -> Decision {
+        let (decision, jitter) = self.before_sync(op);
+        match jitter {
+            Some(0) => tokio::task::yield_now().await,
+            Some(1) => tokio::time::sleep(std::time::Duration::from_micros(50)).await,
+            Some(2) => {
+                tokio::task::yield_now().await;
+                tokio::task::yield_now().await;
+            }
+            _ => {}
+        }
         decision
     }
 
